@@ -1,13 +1,18 @@
 """C41 - protocol version negotiation only steps down and terminates.
 
 Spec: spec/ControlNegotiate.tla - one configuration per initial state (start version x explicit/implicit x
-      allow_beta x server version set S x server-side beta set B), one action per connection attempt.
+      allow_beta x server version set S x server-side beta set B); a connection attempt is two steps by two threads:
+      Reply (event loop publishes the outcome and sets connected_event) and Observe (the thread waiting in
+      Connection.factory() reads it - at any instant after the event is set - and _try_connect's handler runs).
 TLC : exhaustive over all configurations; invariants StrictlyDecreasing, NextLowerOnly, NoBetaUnlessConfigured,
       ExplicitOnce, RetryOnlyOnReject, ConnectedInS, ErrorOnlyWhenExhausted, Bounded; liveness Terminates.
 Bind: every terminal state (= one configuration with the complete log and the outcome) is executed on the real
       driver: Cluster.connect() (and ControlConnection._try_connect directly) against a FakeNode that rejects
       versions outside S with the protocol error and versions in B without USE_BETA with the beta error; the log
       of first-frame versions, the outcome and the resulting Cluster.protocol_version must equal the spec's.
+      Each configuration with a rejection runs under two schedules of the Observe step: after the event-loop
+      callback returned, and at the very instant connected_event is set (the waiting thread reads last_error /
+      is_unsupported_proto_version as they are then).
 """
 import os
 
@@ -42,10 +47,10 @@ def _cfg_of(st):
             "S": sorted(st["S"]), "B": sorted(st["B"])}
 
 
-def _run_one(st, hdr, via):
+def _run_one(st, hdr, via, early=False):
     from harness.replay import control as rc
     c = _cfg_of(st)
-    got = rc.negotiate(c["start"], c["explicit"], c["allow_beta"], c["S"], c["B"], hdr=hdr, via=via)
+    got = rc.negotiate(c["start"], c["explicit"], c["allow_beta"], c["S"], c["B"], hdr=hdr, via=via, early=early)
     return got, rc.negotiate_diff(st, got)
 
 
@@ -69,21 +74,27 @@ def run(ctx):
     # vacuity witnesses on a small family of servers (each must be VIOLATED = reachable)
     small = {"MaxServerBeta": 1, "BetaTopOnly": "FALSE", "ServerSets": "<-WitnessServerSets"}
     wres = rc.witnesses_reached("ControlNegotiate", ctx.scratch, WITNESSES, spec="Spec", constants=small)
-    if wres.coverage().get("Attempt", (0, 0))[1] == 0:
-        raise tlc.MachineryError("action Attempt never taken")
+    cov = wres.coverage()
+    if cov.get("Reply", (0, 0))[1] == 0 or cov.get("Observe", (0, 0))[1] == 0:
+        raise tlc.MachineryError("actions Reply / Observe never taken: %s" % cov)
     ctx.note("vacuity_witnesses_reached", len(WITNESSES))
 
     ctx.note("t_witness_s", round(time.time() - t0, 1))
     if not states:
         raise tlc.MachineryError("no terminal states in the dump")
     # (hdr, via) variants: how the node stamps the version of its error frame, and which entry point runs
-    variants = [("max", "try_connect")] if ctx.quick else [("max", "connect"), ("min", "try_connect"), ("echo", "try_connect")]
-    ctx.note("variants", ["reply-header=%s via=%s" % v for v in variants])
+    # and when the client thread waiting in Connection.factory() observes the connection (step Observe): after the
+    # event-loop callback has returned ("late") or at the very instant connected_event is set ("early")
+    variants = [("max", "try_connect", False), ("max", "try_connect", True)] if ctx.quick else \
+        [("max", "connect", False), ("max", "connect", True), ("min", "try_connect", True), ("echo", "try_connect", False)]
+    ctx.note("variants", ["reply-header=%s via=%s observe=%s" % (h, v, "early" if e else "late") for h, v, e in variants])
     ctx.note("configurations", len(states))
     seen_sig = {}
     for i, st in enumerate(states):
-        for hdr, via in variants:
-            got, d = _run_one(st, hdr, via)
+        for hdr, via, early in variants:
+            if early and ctx.quick and st["replies"][0] == "ok":
+                continue                      # nothing was rejected: no error for the waiting thread to classify
+            got, d = _run_one(st, hdr, via, early)
             ctx.evaluations += 1
             if not d:
                 if list(got["replies"]) != list(st["replies"]):
@@ -94,8 +105,10 @@ def run(ctx):
             sig = rc.negotiate_signature(st, d)
             seen_sig[sig] = seen_sig.get(sig, 0) + 1
             if seen_sig[sig] <= 3:
-                ctx.violation("configuration %s (reply header %s, via %s): %s" % (_cfg_of(st), hdr, via, d),
-                              replay={"state": st, "hdr": hdr, "via": via, "diff": d}, signature=sig)
+                ctx.violation("configuration %s (reply header %s, via %s, Connection.factory observing %s): %s"
+                              % (_cfg_of(st), hdr, via, "at the instant connected_event is set" if early else
+                                 "after the event-loop callback returned", d),
+                              replay={"state": st, "hdr": hdr, "via": via, "early": early, "diff": d}, signature=sig)
         if len(st["log"]) >= 2 or st["status"] == "error":
             ctx.nontrivial((st["start"], st["explicit"], st["allowBeta"], tuple(sorted(st["S"])), tuple(sorted(st["B"]))))
         if i % 3001 == 7:
@@ -140,7 +153,7 @@ def run(ctx):
 
 def replay(ctx, obj):
     st, hdr, via = obj["state"], obj.get("hdr", "max"), obj.get("via", "connect")
-    got, d = _run_one(st, hdr, via)
+    got, d = _run_one(st, hdr, via, obj.get("early", False))
     print("config  :", _cfg_of(st))
     print("spec    : log=%s outcome=%s version=%s" % (list(st["log"]), st["status"], st["ver"]))
     print("code    : log=%s outcome=%s version=%s error=%s" % (got["log"], got["status"], got["ver"], got["error"]))
